@@ -565,27 +565,36 @@ class Executor:
             return f"{node.value.id}.{node.attr}", depth
         return None
 
+    def _event(self):
+        self._seq = getattr(self, "_seq", 0) + 1
+        return self._seq, tuple(getattr(self, "_loop_stack", []))
+
     def note_alias(self, view_name, value_node, v):
         if v is None or not isinstance(v.t, (TList, TDict, TSet)):
             return
         ch = self._chain(value_node)
         if ch is None:
             return
-        self.__dict__.setdefault("_views", []).append((view_name, ch[0], ch[1]))
+        self.__dict__.setdefault("_views", []).append((view_name, ch[0], ch[1], self._event()))
         self.check_alias_lint()
 
     def note_mutation(self, target_node, extra_depth=0):
         ch = self._chain(target_node)
         if ch is None:
             return
-        self.__dict__.setdefault("_mutated", []).append((ch[0], ch[1] + extra_depth))
+        self.__dict__.setdefault("_mutated", []).append((ch[0], ch[1] + extra_depth, self._event()))
         self.check_alias_lint()
 
     def check_alias_lint(self):
         views = self.__dict__.get("_views", [])
         muts = self.__dict__.get("_mutated", [])
-        for view, owner, odepth in views:
-            for root, d in muts:
+        for view, owner, odepth, (aseq, astack) in views:
+            for root, d, (mseq, mstack) in muts:
+                # a mutation that happened before the second name was created is harmless, unless both sit in a
+                # common loop (the body is executed once symbolically, so 'before' may be 'after' in the next iteration)
+                common_loop = any(x in mstack for x in astack)
+                if mseq < aseq and not common_loop:
+                    continue
                 if root == view and d >= 1:
                     raise Unsupported(f"'{view}' is a second name for (part of) '{owner}' and is mutated in place: outside the value-semantics subset")
                 if root == owner and d >= odepth + 2:
@@ -659,7 +668,8 @@ class Executor:
                 idx = ev2.expr(target.slice)
                 ln = list_len(base)
                 i = idx.z
-                if isinstance(target.slice, ast.UnaryOp) and isinstance(target.slice.op, ast.USub):
+                if (isinstance(target.slice, ast.UnaryOp) and isinstance(target.slice.op, ast.USub)
+                        and isinstance(target.slice.operand, ast.Constant)):
                     i = ln + idx.z
                 self.side_obligation(st, "bounds", z3.And(0 <= i, i < ln), target, [])
                 newv = mk_list(base.t, ln, z3.Store(list_arr(base), i, coerce_to(v, base.t.elem).z))
@@ -856,11 +866,15 @@ class Executor:
         for b in body_nodes:
             visit(b)
         # ghost assignments hooked on statements (ghost_before / ghost_after) and helper handles of builtins
-        for _, gvar, _ in list(self.spec.ghost_after) + list(self.spec.ghost_before):
-            w.add(gvar)
+        hooks = list(self.spec.ghost_after) + list(self.spec.ghost_before)
+        if hooks:
+            stmts_src = [ast.unparse(n).strip() for b in body_nodes for n in ast.walk(b) if isinstance(n, ast.stmt)]
+            for pat, gvar, _ in hooks:  # only the ghost assignments whose statement occurs inside this loop
+                if any(src_.startswith(pat) for src_ in stmts_src):
+                    w.add(gvar)
         src = " ".join(ast.unparse(b) for b in body_nodes)
         if "sorted(" in src or ".sort(" in src:
-            w.add("_perm")
+            w.update({"_perm", "_perm_inv"})
         if ".values()" in src:
             w.update({"_key_at", "_pos_of"})
         if "heappop(" in src:
@@ -912,6 +926,7 @@ class Executor:
         out = []
         body_st = h.copy()
         body_st.pc.append(enter)
+        self.__dict__.setdefault("_loop_stack", []).append(k)
         self.emit(body_st, f"cover-loop#{k}", z3.BoolVal(False), line, expect="refutable")
         m0 = None
         if ls.decreases:
@@ -931,6 +946,7 @@ class Executor:
                 out.append((s2, "normal", None))
             else:
                 out.append((s2, kind, payload))
+        self._loop_stack.pop()
         if z3.is_false(z3.simplify(leave)):
             return out  # `while True`: the loop is only left through return / break
         ex = h.copy()
@@ -1064,6 +1080,11 @@ class Executor:
         sp = self.reg.find_function(self.file, name)
         if sp is not None:
             return sp
+        if "." in self.spec.qualname:  # sibling closure of the same enclosing function
+            parent = self.spec.qualname.rsplit(".", 1)[0]
+            sp = self.reg.fns.get(f"{self.file}::{parent}.{name}")
+            if sp is not None:
+                return sp
         # imported helpers: look up by bare name across files
         for s2 in self.reg.fns.values():
             if s2.qualname == name:
